@@ -31,6 +31,9 @@ def shards(tier: str, seed: int) -> List[Dict[str, Any]]:
     out = [{"id": f"rubik|n{n}", "kind": "rubik", "n": n, "weight": 1.0 + n / 2} for n in sizes]
     out.append({"id": "sliding|g2", "kind": "sliding_full", "g": 2, "weight": 1.0})
     out.append({"id": "sliding|g3", "kind": "sliding_full", "g": 3, "cap": 20000 if tier == "quick" else None, "weight": 6.0})
+    # 4x4 and 5x5: a bounded breadth-first sweep around the goal plus the ordered-looking boards
+    out.append({"id": "sliding|g5", "kind": "sliding_full", "g": 5, "cap": 3000 if tier == "quick" else 40000, "weight": 3.0})
+    out.append({"id": "sliding|g4", "kind": "sliding_full", "g": 4, "cap": 3000 if tier == "quick" else 40000, "weight": 3.0})
     out.append({"id": "sliding|walks", "kind": "sliding_walks", "weight": 2.0})
     return out
 
@@ -401,6 +404,32 @@ def run_sliding_full(shard, rep: Report) -> None:
                     seen[k] = 1
                     frontier.append(exp)
                     order.append(exp)
+    # boards that look "ordered" without being the goal (reading order with the blank first, goal with two tiles exchanged
+    # twice, rows reversed ...), entered from each of their neighbours: only the goal may end the episode. Solvable ones only.
+    n2 = g * g
+    specials = [np.arange(n2).reshape(g, g), np.arange(n2)[::-1].reshape(g, g), np.roll(goal.ravel(), 1).reshape(g, g), goal[::-1].copy(), goal[:, ::-1].copy(), goal.T.copy()]
+    sw = goal.ravel().copy()
+    if n2 >= 5:
+        sw[[0, 1]] = sw[[1, 0]]
+        sw[[2, 3]] = sw[[3, 2]]
+        specials.append(sw.reshape(g, g))
+    n_special = 0
+    for B in specials:
+        B = B.astype(goal.dtype)
+        if not solvable(B, goal):
+            continue
+        for a in range(4):
+            Pb, legal = ref_slide(B, OPP[a])
+            if not legal:
+                continue
+            s2, ts = vstep(make_states(Pb[None]), jnp.full((1,), a, jnp.int32))
+            n_special += 1
+            trans += 1
+            if not np.array_equal(np.asarray(s2.puzzle)[0], B):
+                viol("move_equals_blank_swap", {"puzzle": Pb.tolist(), "action": a, "got": np.asarray(s2.puzzle)[0].tolist()})
+            elif bool(np.asarray(ts.step_type)[0] == 2) != bool(np.array_equal(B, goal)):
+                viol("done_iff_goal", {"puzzle": Pb.tolist(), "action": a, "reached": B.tolist(), "last": bool(np.asarray(ts.step_type)[0] == 2)})
+    rep.count("ordered_looking_boards_entered", n_special)
     # opposite moves cancel (on the recorded transition table)
     n_cancel = 0
     for (s, a), (s2, legal) in table.items():
